@@ -370,7 +370,8 @@ class Runner:
                             fired = ("F-solver-raise", f[0]["solver"])
                 else:
                     val = thunk()
-            out = Out(True, None if val is None else np.array(val, dtype=float, copy=True))
+            # simulate's return value is not part of the property (a tree may return None, self, the field ...)
+            out = Out(True, None if (val is None or kind == "simulate") else np.array(val, dtype=float, copy=True))
         except seams.InjectedCrash:
             out = Out(False, exc="InjectedCrash")
         except (seams.InjectedSolverError, MemoryError) as e:
@@ -541,6 +542,12 @@ class Runner:
                         st_c = self._state(cands[k][0])
                         if self._state_eq(st_r, st_c):
                             self.probe("mixed_epoch_object")
+                    if fault["kind"] == "F-crash-line" and out_f.ok and len(cands[k]) < 6:
+                        # an interrupt can land AFTER the results were published (e.g. on a trailing `return self`):
+                        # the call raised but took effect, so "as if it had completed" is a legitimate reference too
+                        cands[k] = cands[k] + [fresh]
+                        completed[k] = True
+                        self.probe("interrupted_simulate_may_have_completed")
                 elif out_f.ok:
                     # reference completed: the real object must have completed identically
                     self.count("A-sim" if not ever_failed[k] else "B1-sim")
